@@ -281,7 +281,33 @@ def load_all():
 
     for m in sorted(pkgutil.iter_modules(pkg.__path__), key=lambda m: m.name):
         importlib.import_module("contracts." + m.name)
+    _tag_by_reach()
     return REGISTRY
+
+
+def _tag_by_reach():
+    """reach.json (written by tools_reach.py, committed): for each property the repository functions that the property's own bounded stand-ins execute.
+    A contract on such a function is also run by that property's check - the function lies on the path between the property's observation points and the
+    code, so by the modular argument its contract is part of what the property rests on.  Not applied to contracts that carry a known finding (findings are
+    listed per property), to scenarios, or to assumed (abstract) contracts.  PYVC_NO_REACH=1 switches this off."""
+    import json
+    import os
+
+    if os.environ.get("PYVC_NO_REACH"):
+        return
+    path = os.path.join(os.path.dirname(os.path.dirname(os.path.abspath(__file__))), "reach.json")
+    try:
+        reach = json.load(open(path))
+    except FileNotFoundError:
+        return
+    for key, c in REGISTRY.items():
+        base = key.split("#")[0]
+        if ":scenario." in base or getattr(c, "abstract", False) or not c.props or getattr(c, "known", None):
+            continue
+        for p, fs in reach.items():
+            if base in fs and p not in c.props:
+                c.props = list(c.props) + [p]
+                c.reach_tagged = getattr(c, "reach_tagged", []) + [p]
 
 
 def assume_library(fobj, name, result=None):
